@@ -49,7 +49,10 @@ def scratch():
     """Per-process scratch directory (removed at exit)."""
     global _scratch
     if _scratch is None:
-        _scratch = tempfile.mkdtemp(prefix='verif_')
+        # worker processes put their scratch directory inside the parent's, so it disappears with it even when the pool
+        # terminates the worker without running its exit handlers
+        parent = os.environ.get('VERIF_SCRATCH_PARENT')
+        _scratch = tempfile.mkdtemp(prefix='verif_', dir=parent if parent and os.path.isdir(parent) else None)
         atexit.register(shutil.rmtree, _scratch, True)
     return _scratch
 
@@ -74,7 +77,8 @@ def fresh_bitcoinlib_env():
 # ---------------------------------------------------------------------------------------------
 
 def _tlc_cmd(module, cfg, workers, extra, jvm):
-    cmd = ['java', '-XX:+UseParallelGC'] + list(jvm) + ['-cp', TLA_CP, 'tlc2.TLC',
+    # (TLC unpacks the modules it takes from jar files into java.io.tmpdir: kept inside the scratch directory)
+    cmd = ['java', '-XX:+UseParallelGC', '-Djava.io.tmpdir=' + scratch()] + list(jvm) + ['-cp', TLA_CP, 'tlc2.TLC',
                                                         '-workers', str(workers), '-noGenerateSpecTE']
     cmd += list(extra) + ['-config', cfg, module]
     return cmd
@@ -366,6 +370,7 @@ def pmap(func, jobs, procs=NCPU, config_ini=None, extra_env=None, chunksize=1):
         return []
     ctx = mp.get_context('spawn')
     procs = max(1, min(procs, len(jobs)))
+    os.environ['VERIF_SCRATCH_PARENT'] = scratch()
     with ctx.Pool(procs, initializer=_worker_init, initargs=(config_ini, extra_env)) as pool:
         return pool.map(func, jobs, chunksize)
 
